@@ -354,6 +354,10 @@ func H_C06_conc() {
 	cd := &c06Codec{st: st}
 	tv := NewTypedValue[uint64](st, []byte("k"), cd.enc, cd.dec)
 	tv.Set(10)
+	if verifrt.Choose("coldCache", 2) == 1 {
+		// the racing instance has not read or written yet: its first access fills the cache from the store
+		tv = NewTypedValue[uint64](st, []byte("k"), cd.enc, cd.dec)
+	}
 	inc := func(cur uint64, exists bool) (uint64, error) { return cur + 1, nil }
 	var wg sync.WaitGroup
 	wg.Add(3)
@@ -586,6 +590,8 @@ func H_C06_conc2() {
 			tv.Set(20 + id)
 		case 2:
 			tv.Delete()
+		case 3:
+			_, _ = tv.Get() // a reader that may have to fill the cache
 		}
 	}
 	serial := func(first, second int, id1, id2 uint64) (uint64, bool) {
@@ -609,7 +615,7 @@ func H_C06_conc2() {
 
 		return v, has
 	}
-	a, b := verifrt.Choose("a", 3), verifrt.Choose("b", 3)
+	a, b := verifrt.Choose("a", 4), verifrt.Choose("b", 3)
 	var wg sync.WaitGroup
 	wg.Add(2)
 	go func() { defer wg.Done(); verifrt.MustFinish(); op(a, 1) }()
@@ -625,4 +631,55 @@ func H_C06_conc2() {
 	ok1 := h1 == (rerr == nil) && (!h1 || raw == v1)
 	ok2 := h2 == (rerr == nil) && (!h2 || raw == v2)
 	verifrt.Assert(ok1 || ok2, "the result of two concurrent writers matches neither serial order (lost update)")
+}
+
+// H_C06_empty: a value whose encoding is the EMPTY byte string (a set marker, an empty string) is a value like any
+// other: after Set the typed view (TypedStore and TypedValue) reports it, exactly like the raw store does.
+//
+//verif:h prop=C06 cover=store,value
+func H_C06_empty() {
+	enc := func(v uint8) ([]byte, error) {
+		if v == 0 {
+			return []byte{}, nil
+		}
+
+		return []byte{v}, nil
+	}
+	dec := func(b []byte) (uint8, int, error) {
+		if len(b) == 0 {
+			return 0, 0, nil
+		}
+
+		return b[0], 1, nil
+	}
+	keyEnc := func(k uint8) ([]byte, error) { return []byte{k}, nil }
+	keyDec := func(b []byte) (uint8, int, error) { return b[0], 1, nil }
+	raw := &c06Map{}
+	v := verifrt.U8("v") // 0 encodes to nothing
+	if verifrt.Choose("which", 2) == 0 {
+		ts := NewTypedStore[uint8, uint8](raw, keyEnc, keyDec, enc, dec)
+		verifrt.Assert(ts.Set(7, v) == nil, "TypedStore.Set failed on a working store")
+		got, err := ts.Get(7)
+		verifrt.Assert(err == nil && got == v, "TypedStore.Get does not return a value that was just set (a value with an empty encoding counts as missing)")
+		has, herr := ts.Has(7)
+		verifrt.Assert(herr == nil && has, "TypedStore.Has does not report a key that was just set")
+		seen := 0
+		ierr := ts.Iterate(EmptyPrefix, func(k, val uint8) bool {
+			seen++
+			verifrt.Assert(k == 7 && val == v, "TypedStore.Iterate reports a different entry than was set")
+
+			return true
+		})
+		verifrt.Assert(ierr == nil && seen == 1, "TypedStore.Iterate does not visit the entry that was just set")
+		verifrt.Cover("store")
+	} else {
+		tv := NewTypedValue[uint8](raw, []byte{9}, enc, dec)
+		verifrt.Assert(tv.Set(v) == nil, "TypedValue.Set failed on a working store")
+		fresh := NewTypedValue[uint8](raw, []byte{9}, enc, dec) // no cache: reads the raw entry
+		got, err := fresh.Get()
+		verifrt.Assert(err == nil && got == v, "TypedValue.Get does not return a stored value whose encoding is empty")
+		has, herr := fresh.Has()
+		verifrt.Assert(herr == nil && has, "TypedValue.Has does not report a stored value whose encoding is empty")
+		verifrt.Cover("value")
+	}
 }
